@@ -119,7 +119,8 @@ class FortranRegularExpressions:
     NON_DEF: Pattern = compile(r"[ ]*(CALL[ ]+[a-z_]|[a-z_][\w%]*[ ]*=)", I)
     # Fixed format matching rules
     FIXED_COMMENT: Pattern = compile(r"([!cd*])", I)
-    FIXED_CONT: Pattern = compile(r"( {5}[\S])")
+    FIXED_CONT: Pattern = compile(r"( {5}[^\s0])")
+    FIXED_ZERO: Pattern = compile(r"([ \d]{5}0)")
     FIXED_DOC: Pattern = compile(r"(?:[!cd\*])([<>!])", I)
     FIXED_OPENMP: Pattern = compile(r"[!c\*]\$OMP", I)
     # Free format matching rules
